@@ -50,18 +50,7 @@ func runC03(w *h.W, batch int) {
 	// reloaded forms prune by a structure the active form does not have. The map is monotone: order and ties are kept.
 	recent := ""
 	if batch%3 == 2 && len(corp.Docs) > 0 {
-		now := uint64(time.Now().UnixMilli())
-		spanMin := uint64(h.Pick(r, []int{25, 90, 600, 1300}))
-		lo, hi := corp.Docs[0].ID.MID, corp.Docs[0].ID.MID
-		for _, d := range corp.Docs {
-			lo, hi = min(lo, d.ID.MID), max(hi, d.ID.MID)
-		}
-		base := now - (spanMin+11)*60000
-		for _, d := range corp.Docs {
-			d.ID.MID = base + (d.ID.MID-lo)*spanMin*60000/max(hi-lo, 1)
-		}
-		corp.MinMID, corp.MaxMID = base, base+spanMin*60000
-		recent = fmt.Sprintf(" recent(now=%d span=%dmin)", now, spanMin)
+		recent = moveToRecentPast(r, corp)
 	}
 	nReq := 100
 	if len(corp.Docs) > 60000 {
